@@ -12,21 +12,33 @@ RECURSIVE JoinComps(_, _, _)
 JoinComps(s, names, i) ==
     IF i > Len(names) THEN <<>> ELSE Component(Table, s, names[i]) \o JoinComps(s, names, i + 1)
 
+\* A pinned value can only "appear unchanged" if it fits its field (width and character classes) of the
+\* requested country; values that do not are outside the property's quantifier: what the library does
+\* with them is judged only as far as "never a non-library exception, never an invalid object".
+PinsFit(e, sp) ==
+    \A j \in 1..Len(e.pinned) :
+        LET p == sp.pos[e.pinned[j]]
+        IN  /\ e.pinned[j] \in ComponentSet
+            /\ sp.haspos /\ p # <<0, 0>> /\ p[2] <= Len(sp.cls)
+            /\ FitsClasses(e.vals[e.pinned[j]], SubSeq(sp.cls, p[1] + 1, p[2]))
+
 RandomOutcome(e) ==
     LET o == e.out
         req == IF Len(e.country) = 2 THEN <<e.country[1], e.country[2]>> ELSE <<>>
         supported == e.country = <<>> \/ (req \in DOMAIN Table /\ Table[req].consistent /\ Table[req].allfixed)
+        fit == e.pinned = <<>> \/ (req \in DOMAIN Table /\ supported /\ PinsFit(e, Table[req]))
     IN  IF o.k = "exc" /\ ~o.lib THEN "non-library-exception"
         ELSE IF ~supported THEN (IF o.k = "ok" /\ e.country # <<>> /\ req \notin DOMAIN Table
                                  THEN "drawn-for-unknown-country" ELSE "ok")
-        ELSE IF o.k = "exc" THEN (IF o.cls = "GenerateRandomOverflowError" THEN "ok" ELSE "raised-other-than-overflow")
+        ELSE IF o.k = "exc" THEN (IF o.cls = "GenerateRandomOverflowError" \/ ~fit THEN "ok" ELSE "raised-other-than-overflow")
         ELSE LET s == IF e.op = "iban.random" THEN o.val ELSE o.cc \o <<48, 48>> \o o.val
                  key == CountryKey(s)
              IN  IF e.op = "iban.random" /\ ~Valid(Table, o.val) THEN "random-iban-invalid"
                  ELSE IF key \notin DOMAIN Table THEN "random-bban-of-unknown-country"
-                 ELSE IF e.op = "bban.random" /\ ~FitsBban(o.val, Table[key]) THEN "random-bban-does-not-fit-structure"
+                 \* (a pinned value that does not fit its field is carried into the BBAN as it is: not judged)
+                 ELSE IF e.op = "bban.random" /\ fit /\ ~FitsBban(o.val, Table[key]) THEN "random-bban-does-not-fit-structure"
                  ELSE IF e.country # <<>> /\ CountryOf(s) # e.country THEN "drawn-for-another-country"
-                 ELSE IF \E j \in 1..Len(e.pinned) :
+                 ELSE IF fit /\ \E j \in 1..Len(e.pinned) :
                             Component(Table, s, e.pinned[j]) # e.vals[e.pinned[j]]
                       THEN "pinned-component-changed:" \o
                            e.pinned[CHOOSE j \in 1..Len(e.pinned) : Component(Table, s, e.pinned[j]) # e.vals[e.pinned[j]]]
